@@ -3,6 +3,8 @@ import RactorModel.Lemmas.AdmissionCore
 import RactorModel.Lemmas.AdmissionLate
 import RactorModel.Lemmas.AdmissionIds
 import RactorModel.Lemmas.AdmissionQueue
+import RactorModel.Lemmas.AdmissionOracle
+import RactorModel.Lemmas.AdmissionShut
 
 /-!
 # C07 — drain processes everything accepted and admits nothing afterwards
@@ -37,14 +39,32 @@ theorem send_after_close_rejected (progs : List (List Op)) (sched : List Tid) :
   have := hI.one
   omega
 
-/-- What `late` records: the first step of a send reads `closed` into the ghost flag (and the
+/-- (1, schedule form) *After the close nothing is admitted.* If in some reachable state admission
+is closed (a drainer's `fetch_or` has been executed) and the send of message `m` has not performed
+its first step yet — its id is not even allocated, or its frame is still parked at `send.status` —
+then whatever happens afterwards, `m` is never enqueued and the send can only return
+`Err(SendErr(m))`: the message is handed back. -/
+theorem send_started_after_close_is_rejected (progs : List (List Op)) (sched₁ sched₂ : List Tid) (m : Nat)
+    (hc : (run (init progs) sched₁).sh.word.closed = true)
+    (hnot : (run (init progs) sched₁).sh.nextId ≤ m ∨
+      ∃ stack ∈ (run (init progs) sched₁).threads, ∃ f ∈ stack, f.pc = .sStatus ∧ f.id = m) :
+    (run (run (init progs) sched₁) sched₂).sh.enq.count (.msg m) = 0 ∧
+    ∀ r ∈ (run (run (init progs) sched₁) sched₂).sh.rets, r.kind = .send → r.id = m → r.res = .sendErr := by
+  have hI := idInv_run m _ sched₁ (idInv_init m progs)
+  have hS := shutInv_run m _ sched₂ (shutInv_of_closed m _ hI hc hnot)
+  refine ⟨hS.not_enq, fun r hr hk hid => ?_⟩
+  have := List.countP_eq_zero.mp hS.rets_ok r hr
+  simp only [Ret.notHandedBack, hid, beq_self_eq_true, hk, Bool.true_and, Bool.not_eq_true] at this
+  cases hres : r.res <;> simp_all
+
+/-- What `late` records: the first step of a send reads `closed` into the ghost flag (together with the ids of the sends that have already returned `Ok`; the
 send either returns `SendErr` at once because of the status, or goes on to `admit.load`). -/
 theorem first_step_records_closed (s : Shared) (id : Nat) (late bf : Bool) (ops : List Op)
-    (rest : List Frame) :
-    stepThread s (⟨.sStatus, id, late, ops, bf⟩ :: rest) =
+    (sk : List Nat) (rest : List Frame) :
+    stepThread s (⟨.sStatus, id, late, ops, bf, sk⟩ :: rest) =
       if s.status ≥ stDraining then
-        some ({ s with rets := s.rets ++ [⟨.send, id, .sendErr, s.word.closed⟩] }, rest)
-      else some (s, ⟨.aLoad, id, s.word.closed, ops, bf⟩ :: rest) := by
+        some ({ s with rets := s.rets ++ [⟨.send, id, .sendErr, s.word.closed, okIds s.rets⟩] }, rest)
+      else some (s, ⟨.aLoad, id, s.word.closed, ops, bf, okIds s.rets⟩ :: rest) := by
   simp only [stepThread, finish, kindOf]
 
 /-- (2) The admission count is exactly the number of tickets held: frames between a successful
@@ -132,6 +152,24 @@ theorem drain_completes (progs : List (List Op)) (sched : List Tid)
   · exact Or.inr ⟨h, Q.stopped h⟩
   · exact Or.inl h
 
+/-- Every message accepted before the drain completed is handled before the actor exits with
+"Drained": when the receiver has dequeued the marker, everything that was ever enqueued has been
+dequeued — nothing is left in the channel and nothing was flushed. -/
+theorem drained_exit_handled_everything (progs : List (List Op)) (sched : List Tid)
+    (h : Item.drain ∈ (run (init progs) sched).sh.deqd) :
+    (run (init progs) sched).sh.handled = msgIds (run (init progs) sched).sh.enq ∧
+    (run (init progs) sched).sh.queue = [] ∧ (run (init progs) sched).sh.flushed = [] := by
+  have I := inv_run _ sched (inv_init progs)
+  have Q := qinv_run _ sched (qinv_init progs)
+  generalize run (init progs) sched = g at *
+  have hl := I.marker_last
+  rw [Q.conserve, List.append_assoc] at hl
+  have hb := markerLast_prefix_all _ _ hl h
+  have hq : g.sh.queue = [] := (List.append_eq_nil_iff.mp hb).2
+  have hf : g.sh.flushed = [] := (List.append_eq_nil_iff.mp hb).1
+  refine ⟨?_, hq, hf⟩
+  rw [Q.handled_eq, Q.conserve, hq, hf]; simp
+
 /-- (6) *A repeated drain is harmless*: once the marker bit is set (some drain completed) and the
 status is at least `Draining`, a whole further `drain()` — its three atomic steps, run from any
 state in any thread — changes nothing of the shared state except logging its `Ok` return.
@@ -139,10 +177,10 @@ state in any thread — changes nothing of the shared state except logging its `
 theorem repeated_drain_changes_nothing (s : Shared) (parent : Frame) (rest : List Frame)
     (hm : s.word.marker = true) (hc : s.word.closed = true) (hst : stDraining ≤ s.status) :
     ∃ s1 st1 s2 st2,
-      stepThread s (⟨.dClose, 0, false, [], false⟩ :: parent :: rest) = some (s1, st1) ∧
+      stepThread s (⟨.dClose, 0, false, [], false, []⟩ :: parent :: rest) = some (s1, st1) ∧
       stepThread s1 st1 = some (s2, st2) ∧
-      stepThread s2 st2 = some ({ s with rets := s.rets ++ [⟨.drain, 0, .ok, false⟩] }, parent :: rest) := by
-  obtain ⟨⟨wc, wm, wn⟩, status, queue, rxOpen, rxStopped, enq, deqd, handled, flushed, dex, mdrop,
+      stepThread s2 st2 = some ({ s with rets := s.rets ++ [⟨.drain, 0, .ok, false, []⟩] }, parent :: rest) := by
+  obtain ⟨⟨wc, wm, wn⟩, status, queue, rxOpen, rxStopped, sbo, enq, deqd, handled, flushed, dex, mdrop,
     nextId, rets⟩ := s
   simp only at hm hc hst
   subst hm hc
@@ -152,6 +190,42 @@ theorem repeated_drain_changes_nothing (s : Shared) (parent : Frame) (rest : Lis
     subst this
     simp [stepThread, finish, kindOf, mRet, markerCond, stDraining, stStopping]
   · simp [stepThread, finish, kindOf, mRet, markerCond, h]
+
+/-- **A drain that is not interleaved with anything** (API level): admission is closed, the status
+becomes `Draining` unless the actor is already stopping, and — if no send holds a ticket and the
+marker was not emitted before — the marker is emitted (or reported lost if the receiver is gone). -/
+theorem uninterleaved_drain (g : G) (i : Nat) (h : g.threads[i]? = some [{ pc := .run, ops := [.drain] }]) :
+    (run g (List.replicate 6 (.t i))).sh =
+      (let st := if g.sh.status < stStopping then stDraining else g.sh.status
+       if g.sh.word.count = 0 ∧ g.sh.word.marker = false then
+         if g.sh.rxOpen = true then
+           { g.sh with word := ⟨true, true, 0⟩, status := st,
+                       queue := g.sh.queue ++ [.drain], enq := g.sh.enq ++ [.drain],
+                       rets := g.sh.rets ++ [⟨.drain, 0, .ok, false, []⟩] }
+         else
+           { g.sh with word := ⟨true, true, 0⟩, status := st, markerDropped := g.sh.markerDropped + 1,
+                       rets := g.sh.rets ++ [⟨.drain, 0, .drainErr, false, []⟩] }
+       else
+         { g.sh with word := { g.sh.word with closed := true }, status := st,
+                     rets := g.sh.rets ++ [⟨.drain, 0, .ok, false, []⟩] }) := by
+  rw [run_replicate 6 h]
+  obtain ⟨sh, threads⟩ := g
+  obtain ⟨⟨wc, wm, wn⟩, status, queue, rxOpen, rxStopped, sbo, enq, deqd, handled, flushed, dex, mdrop,
+    nextId, rets⟩ := sh
+  simp only
+  by_cases h1 : status < stStopping <;> cases wm <;> cases rxOpen <;> by_cases h2 : wn = 0 <;>
+    simp [runThread, stepThread, startOp, finish, kindOf, mRet, markerCond, h1, h2]
+
+
+/-- **The run-time oracle is a theorem of the model.** `Obs.violations` — the very function the
+driver evaluates on the implementation's end-of-case observations (handled at most once and only
+if Ok, every Ok handled unless stopped, nothing admitted after the close, count 0 and closed ⇒
+marker at quiescence, exactly one "Drained" exit after a drain, none without) — is empty for every
+end state of the model: all programs, all schedules, no op in flight, receiver ran until it blocked. -/
+theorem oracle_holds_of_model (progs : List (List Op)) (sched : List Tid)
+    (he : endState (run (init progs) sched) = true) :
+    (obsOf (run (init progs) sched)).violations = [] :=
+  violations_nil (reach_run progs sched) he
 
 /-! ### Source guards (E-SRC): the tables the model depends on, re-extracted from the sources on
 every run -/
@@ -188,7 +262,7 @@ def exampleProgs : List (List Op) := [[.send [] false], [.drain], [.send [] fals
 
 example : (run (init exampleProgs) exampleSched).sh.enq = [.msg 0, .drain] := by decide
 example : (run (init exampleProgs) exampleSched).sh.rets =
-    [⟨.drain, 0, .ok, false⟩, ⟨.send, 1, .sendErr, true⟩, ⟨.send, 0, .ok, false⟩] := by decide
+    [⟨.drain, 0, .ok, false, []⟩, ⟨.send, 1, .sendErr, true, []⟩, ⟨.send, 0, .ok, false, []⟩] := by decide
 example : (run (init exampleProgs) exampleSched).sh.word = ⟨true, true, 0⟩ ∧
     quiescent (run (init exampleProgs) exampleSched) = true := by decide
 /-- the re-entrant shape of `drain_defers_marker_for_reentrant_admitted_send`: the drain runs
@@ -196,11 +270,23 @@ inside `box_message` while the ticket is held, returns `Ok` without marker, and 
 emitted by the ticket drop after the enqueue. -/
 example : (run (init [[.send [.drain] false]]) (List.replicate 15 (.t 0))).sh.enq = [.msg 0, .drain]
     ∧ (run (init [[.send [.drain] false]]) (List.replicate 15 (.t 0))).sh.rets =
-      [⟨.drain, 0, .ok, false⟩, ⟨.send, 0, .ok, false⟩] := by decide
+      [⟨.drain, 0, .ok, false, []⟩, ⟨.send, 0, .ok, false, []⟩] := by decide
+
+/-- the hypothesis of `oracle_holds_of_model` is satisfiable: the example, after the receiver ran -/
+example : endState (run (init exampleProgs) (exampleSched ++ [.recv, .recv, .setStatus 5, .rxClose, .rxFlush])) = true := by
+  decide
+
+/-- hypotheses of `send_started_after_close_is_rejected` are satisfiable: after the drainer's close
+(thread 1, two steps) thread 2's send is parked at `send.status` with id 0 … and is rejected -/
+example : (run (init exampleProgs) [.t 1, .t 1, .t 2]).sh.word.closed = true
+    ∧ (∃ stack ∈ (run (init exampleProgs) [.t 1, .t 1, .t 2]).threads, ∃ f ∈ stack, f.pc = .sStatus ∧ f.id = 0)
+    ∧ (run (init exampleProgs) [.t 1, .t 1, .t 2, .t 2, .t 2]).sh.rets = [⟨.send, 0, .sendErr, true, []⟩] := by
+  refine ⟨by decide, ⟨_, List.mem_of_getElem? (i := 2) rfl, _, List.mem_cons_self, rfl, rfl⟩, by decide⟩
 
 end C07
 
 #print axioms C07.send_after_close_rejected
+#print axioms C07.send_started_after_close_is_rejected
 #print axioms C07.first_step_records_closed
 #print axioms C07.count_is_tickets
 #print axioms C07.marker_at_most_once
@@ -208,7 +294,10 @@ end C07
 #print axioms C07.messages_precede_marker
 #print axioms C07.marker_implies_closed_and_idle
 #print axioms C07.drain_completes
+#print axioms C07.drained_exit_handled_everything
 #print axioms C07.repeated_drain_changes_nothing
+#print axioms C07.uninterleaved_drain
+#print axioms C07.oracle_holds_of_model
 #print axioms C07.src_status_discriminants
 #print axioms C07.src_admission_word_layout
 #print axioms C07.src_drain_steps
